@@ -251,6 +251,35 @@ func CheckConsume(c ConsumeCase) *kit.Violation {
 	if rd.pos != len(c.Stream.Data) {
 		return kit.Failf("%s consumer into %s: only %d of %d stream bytes were read", c.Codec, c.Dest, rd.pos, len(c.Stream.Data))
 	}
+	// never alias: what was stored must survive later work of the codec (a second and third Consume of other
+	// content of the same size, by the same and by a fresh consumer, into other destinations)
+	if len(want) > 0 {
+		snapshot := append([]byte(nil), got...)
+		other := make([]byte, len(c.Stream.Data))
+		for i := range other {
+			other[i] = ^c.Stream.Data[i]
+		}
+		for round, cn := range []rt.Consumer{cons, newConsumer(c.Codec, false)} {
+			var sink interface{}
+			var a interface{} = []byte("x")
+			var b []byte
+			var s2 string
+			switch {
+			case c.Codec == "text":
+				sink = &s2
+			case round == 0:
+				sink = &a
+			default:
+				sink = &b
+			}
+			if v := kit.Guard("follow-up consume", func() { _ = cn.Consume(bytes.NewReader(other), sink) }); v != nil {
+				return v
+			}
+		}
+		if now := read(); !bytes.Equal(now, snapshot) {
+			return kit.Failf("ALIASED: %s consumer into %s stored %q; after two later Consume calls with other content the destination reads %q", c.Codec, c.Dest, clipb(snapshot), clipb(now))
+		}
+	}
 	return nil
 }
 
@@ -279,7 +308,30 @@ type wrTo []byte
 
 func (m wrTo) WriteTo(w io.Writer) (int64, error) { n, err := w.Write(m); return int64(n), err }
 
+// wrToCloser is an io.WriterTo that is also an io.ReadCloser (like *os.File): a closable source payload.
+type wrToCloser struct {
+	data   []byte
+	pos    int
+	closed int
+}
+
+func (m *wrToCloser) WriteTo(w io.Writer) (int64, error) {
+	n, err := w.Write(m.data[m.pos:])
+	m.pos += n
+	return int64(n), err
+}
+func (m *wrToCloser) Read(p []byte) (int, error) {
+	if m.pos >= len(m.data) {
+		return 0, io.EOF
+	}
+	n := copy(p, m.data[m.pos:])
+	m.pos += n
+	return n, nil
+}
+func (m *wrToCloser) Close() error { m.closed++; return nil }
+
 const (
+	sWrToCloser  = "WriterTo+ReadCloser"
 	sString      = "string"
 	sStringPtr   = "*string"
 	sNamedStr    = "namedString"
@@ -301,7 +353,7 @@ const (
 	sChanless    = "map"
 )
 
-var srcKinds = []string{sString, sStringPtr, sNamedStr, sBytes, sBytesPtr, sNamedBytes, sError, sStringer, sTxtM, sBinM, sWriterTo,
+var srcKinds = []string{sWrToCloser, sString, sStringPtr, sNamedStr, sBytes, sBytesPtr, sNamedBytes, sError, sStringer, sTxtM, sBinM, sWriterTo,
 	sReader, sReadCloser, sNil, sNilStrPtr, sNilBytesPtr, sInt, sIntPtr, sChanless}
 
 // verdict of the documentation for a source kind: "exact" (the sink receives exactly the source bytes),
@@ -315,7 +367,7 @@ func sourceVerdict(codec, k string) string {
 			return "exact"
 		}
 		return "open" // strings, []byte kinds are written as such; others fall to the JSON rule
-	case sBytes, sBytesPtr, sNamedBytes, sBinM, sWriterTo, sReader, sReadCloser:
+	case sBytes, sBytesPtr, sNamedBytes, sBinM, sWriterTo, sReader, sReadCloser, sWrToCloser:
 		if codec == "bytes" {
 			return "exact"
 		}
@@ -352,6 +404,7 @@ func CheckProduce(c ProduceCase) *kit.Violation {
 	data := []byte(c.Stream.Data)
 	var src interface{}
 	var rd *reader
+	var wtc *wrToCloser
 	switch c.Src {
 	case sString:
 		src = string(data)
@@ -376,6 +429,9 @@ func CheckProduce(c ProduceCase) *kit.Violation {
 		src = binM(data)
 	case sWriterTo:
 		src = wrTo(data)
+	case sWrToCloser:
+		wtc = &wrToCloser{data: data}
+		src = wtc
 	case sReader:
 		s := c.Stream
 		s.Closable = false
@@ -412,6 +468,9 @@ func CheckProduce(c ProduceCase) *kit.Violation {
 	}
 	if w.closed != wantClosed {
 		return kit.Failf("%s producer from %s: sink closed %d times, want %d (closing option=%v, closable=%v), err=%v", c.Codec, c.Src, w.closed, wantClosed, closing, c.Sink.Closable, err)
+	}
+	if wtc != nil && c.Codec == "bytes" && wtc.closed != 1 {
+		return kit.Failf("bytes producer: the closable source payload (io.WriterTo + io.ReadCloser) was closed %d times, want 1 (err=%v)", wtc.closed, err)
 	}
 	if c.Src == sReadCloser && c.Codec == "bytes" && rd.closed != 1 {
 		return kit.Failf("bytes producer: the closable source payload was closed %d times, want 1 (err=%v)", rd.closed, err)
